@@ -289,6 +289,31 @@ INVARIANT ManyAgrees
     return hs
 
 
+def refinement_everywhere(rep):
+    """spec/Cache.tla SpecAll: client tables + faithful server = abstract cache in EVERY well-formed state of a bounded shape
+    (not only the states reachable within the history depth): agreement on all (state, operation) pairs is agreement on
+    histories of any length."""
+    cfg = f"""SPECIFICATION SpecAll
+CONSTANTS
+  Depth = 0
+  Start = {START}
+  WireDepth = 0
+INVARIANT WireRefinesAbstractEverywhere
+INVARIANT CasTokenAccepted
+INVARIANT ManyAgrees
+CHECK_DEADLOCK FALSE
+"""
+    r = tlc.run("Cache", cfg_text=cfg, cfg="CacheAll_gen", workers=16, timeout=3000)
+    if r.error:
+        raise common.MachineryError(r.error)
+    if not r.ok:
+        rep.violation("C05/model/everywhere/" + ",".join(r.invariants_violated),
+                      "wire-level model and abstract cache disagree in some well-formed state", tlc.first_error_trace(r))
+    if r.distinct < 1000:
+        raise common.MachineryError("vacuous all-states refinement: %d states" % r.distinct)
+    rep.set("refinement_checked_in_all_wellformed_states", r.distinct)
+
+
 def random_histories(n, depth, seed):
     """Long random histories over the same alphabet as spec/Cache.tla, with cas tokens taken from what
     earlier gets/gats calls of the history returned (the natural data flow through the caller).
